@@ -714,11 +714,14 @@ def random_ops(rng, spec, maxlen):
     return tuple(ops)
 
 
-def poly_center_reliable(spec):
+def poly_center_reliable(spec, ops=None):
     """center() branches on the float test `area() == 0`; for a zero-area vertex set that test is meaningful only when the
-    mean is exact, i.e. the number of averaged vertices is a power of two"""
+    mean is exact, i.e. the number of averaged vertices is a power of two and the vertices have only been moved by dyadic amounts
+    (zero signed area includes symmetric self-intersecting shapes such as the bow-tie)"""
     if not degenerate_poly(spec):
         return True
+    if ops is not None and any(o[0] != 'move' for o in ops):
+        return False          # a rotation makes the coordinates inexact
     vs = spec[1]
     n = len(vs) - (1 if len(vs) > 1 and vs[0] == vs[-1] else 0)
     return n in (1, 2, 4, 8)
@@ -764,7 +767,7 @@ def stream_small(R):
         for ops in seqs:
             if not ops_valid(spec, ops):
                 continue
-            if spec[0] == 'poly' and ops and not poly_center_reliable(spec):
+            if spec[0] == 'poly' and ops and not poly_center_reliable(spec, ops):
                 continue
             try:
                 _, truth, _ = run_impl(spec, ops)
@@ -800,7 +803,7 @@ def stream_random(R):
         rng = R.subrng('random', i)
         spec = random_spec(rng)
         ops = random_ops(rng, spec, 4)
-        if spec[0] == 'poly' and not poly_center_reliable(spec):
+        if spec[0] == 'poly' and not poly_center_reliable(spec, ops):
             ops = ()
         try:
             _, truth, _ = run_impl(spec, ops)
@@ -825,7 +828,7 @@ def stream_shapes(R):
         rng = R.subrng('shapes', i)
         spec = random_spec(rng)
         ops = random_ops(rng, spec, 2)
-        if spec[0] == 'poly' and not poly_center_reliable(spec):
+        if spec[0] == 'poly' and not poly_center_reliable(spec, ops):
             ops = ()
         case = {'stream': 'shapes', 'roi': jspec(spec), 'ops': jspec(ops), 'sub': i}
         try:
@@ -941,7 +944,7 @@ def stream_projected(R):
         while spec[0] == 'range':
             spec = random_spec(rng)
         ops = random_ops(rng, spec, 1)
-        if spec[0] == 'poly' and not poly_center_reliable(spec):
+        if spec[0] == 'poly' and not poly_center_reliable(spec, ops):
             ops = ()
         m = matrices(rng)
         case = {'stream': 'projected', 'roi': jspec(spec), 'ops': jspec(ops), 'matrix': jspec(m), 'sub': i}
